@@ -41,7 +41,10 @@ def parse_reference_path(ref_path_raw: str) -> Union[ReferencePath, ParseError]:
     See Also:
         - https://swagger.io/docs/specification/using-ref/
     """
-    parsed = urlparse(ref_path_raw)
+    try:
+        parsed = urlparse(ref_path_raw)
+    except ValueError:  # e.g. a malformed IPv6 host
+        return ParseError(detail=f"{ref_path_raw} is not a valid reference.")
     if parsed.scheme or parsed.path:
         return ParseError(detail=f"Remote references such as {ref_path_raw} are not supported yet.")
     return cast(ReferencePath, parsed.fragment)
